@@ -15,7 +15,7 @@ from .values import enc, enc_num
 
 STATS = ['SUM', 'PRODUCT', 'AVERAGE', 'MIN', 'MAX', 'COUNT', 'MEDIAN', 'MODE', 'VAR', 'VARP', 'AVEDEV', 'VAR.S', 'VAR.P', 'MODE.SNGL']
 ERRWIN = ['SUM', 'PRODUCT', 'AVERAGE', 'MIN', 'MAX', 'MEDIAN']
-CRITS = ['>0', '<=1', '=1', '<>1', 1, '3', '>1.5', '<-1', '>=3', 1.5, '=0', 3.0, '1.0']   # 3.0: a float criterion equal to integer cells
+CRITS = ['>0', '<=1', '=1', '<>1', 1, '3', '>1.5', '<-1', '>=3', 1.5, '=0', 3.0, '1.0', '>1e-05', '<=1E0', '>=1.5e0', '<1e1', '>2E-1', '<>1e+0']   # 3.0: a float criterion equal to integer cells
 
 
 def arr(items):
@@ -275,6 +275,24 @@ def main(tier, replay=None):
         o['checks'] = ['value']
         obs.append(o)
     judge(obs)
+    # integers no double can hold: SUM is still their exact sum, however the items are grouped (Trace_Big)
+    from .c06 import signed, big_out
+    big = []
+    bp = lib.Parser()
+    for _ in range(150 if quick else 5000):
+        a = rng.choice([2 ** 53 + 1, 10 ** 17 + 1, rng.randint(2 ** 53, 10 ** 30), 10 ** 400]) * rng.choice([1, 1, -1])
+        b = rng.choice([2, 1, -a + 7, -a, rng.randint(-10 ** 6, 10 ** 6), rng.randint(2 ** 53, 10 ** 20), 1 - a])
+        bp.set_variable('va', a)
+        bp.set_variable('vb', b)
+        bp.set_variable('vl', [a, b])
+        f1, f2 = rng.choice([('SUM(va,vb)', 'SUM(vb,va)'), ('SUM(vl)', 'SUM({0},vl)'), ('SUM(va,0,vb)', 'SUM(vb,{0,0},va)')])
+        big.append({'kind': 'big', 'op': '+', 'a': signed(a), 'b': signed(b), 'k': 0, 'formula': f1, 'out': big_out(bp.parse(f1)),
+                    'out2': big_out(bp.parse(f2)), 'in': {'formula': f1 + ' / ' + f2, 'a': str(a)[:40], 'b': str(b)[:40]}})
+    for n, o in enumerate(big, 1):
+        o['id'] = n
+    v = core.validate_obs(run, 'Trace_Big', big, 'big')
+    core.tally(run, big, v, 'c11-big', key=lambda o: json.dumps(o['in'], sort_keys=True))
+    run.extra['big_integer_sums'] = len(big)
     run.exhaustive = True
     run.samples = samples
     return run.finish()
